@@ -616,6 +616,12 @@ func (b *builder) addFixed() {
 		t.Ifaces = append(t.Ifaces, &Iface{Name: "FxSealed", File: file, Exportable: false, Tags: []string{"fixed"},
 			Methods: []Method{{Name: "seal"}, {Name: "Open", Results: []Param{{"", er}}}, {Name: "visitAll", Params: []Param{{"", fnA}}}}})
 	}
+	// unnamed parameters whose derived name is a std package that the next parameter brings in
+	tm, cx := b.std("time"), b.std("context")
+	mk("FxShadow",
+		Method{Name: "At", Params: []Param{{"", local("Time")}, {"", pkgT(tm, "Time")}}},
+		Method{Name: "Handle", Params: []Param{{"", local("Context")}, {"", pkgT(cx, "Context")}}, Results: []Param{{"", er}}},
+		Method{Name: "Later", Params: []Param{{"", pkgT(tm, "Duration")}, {"", ptr(local("Time"))}}})
 	mapT := &T{Kind: KMap, Key: str, Elem: in}
 	mk("FxCatalog",
 		Method{Name: "Index", Results: []Param{{"", mapT}}},
@@ -687,6 +693,7 @@ func (b *builder) genTParams(i *Iface) {
 		case "stdnamedunion":
 			// first term is a named, non-~ type of a single-segment package: the self-check happens to be valid
 			tm := b.std("time")
+			tm.SrcAlias = "" // the self-check prints the first term as time.Duration whatever the import is called (KF-self-check-representative)
 			tp.Constraint = &T{Kind: KIface, Embeds: []*T{{Kind: KPkg, Pkg: tm, Name: "Duration | " + "TIMEQ" + ".Month"}}}
 			tp.Comparable = true
 		case "comparable":
@@ -751,7 +758,7 @@ func (b *builder) std(path string) *Dep {
 }
 
 // MatrixKinds lists the deterministic matrix trees.
-var MatrixKinds = []string{"initialisms", "derived", "reserved", "numbered"}
+var MatrixKinds = []string{"initialisms", "derived", "reserved", "numbered", "stale"}
 
 // NewMatrixTree builds one of the deterministic trees that enumerate a finite sub-space completely:
 //   - initialisms: every golint initialism in four casings as a user-written parameter name;
@@ -772,7 +779,7 @@ func NewMatrixTree(kind string, hz Hazards) *Tree {
 		d.SrcAlias = "" // plain imports
 	}
 	b.makeLocals()
-	str := basic("string")
+	str, er := basic("string"), basic("error")
 	add := func(prefix string, methods []Method) {
 		for k := 0; k*30 < len(methods); k++ {
 			end := (k + 1) * 30
@@ -790,6 +797,16 @@ func NewMatrixTree(kind string, hz Hazards) *Tree {
 				ms = append(ms, Method{Name: fmt.Sprintf("M%s%d", in, c), Params: []Param{{n, basic("int")}, {"other", str}}})
 			}
 		}
+		// names that differ only by case but have distinct exported forms, and exported-style names next to the
+		// package of the same spelling
+		u := b.std("net/url")
+		tmx := b.std("time")
+		ms = append(ms,
+			Method{Name: "PairA", Params: []Param{{"userId", basic("int")}, {"userID", basic("int")}}},
+			Method{Name: "PairB", Params: []Param{{"db", str}, {"dB", str}}},
+			Method{Name: "PairC", Params: []Param{{"URL", str}, {"base", ptr(pkgT(u, "URL"))}}},
+			Method{Name: "PairD", Params: []Param{{"Time", str}, {"at", pkgT(tmx, "Time")}}},
+			Method{Name: "PairE", Params: []Param{{"aB", str}, {"ab", str}}})
 		add("MxInit", ms)
 	case "derived":
 		l := t.Locals
@@ -836,6 +853,35 @@ func NewMatrixTree(kind string, hz Hazards) *Tree {
 		}
 		t.ExtraDecls = decl.String()
 		add("MxReserved", ms)
+	case "stale":
+		// two packages named client, each imported bare by a different source file; a parameter named client that
+		// is allocated after both were re-aliased must keep its name, one allocated in between must not
+		for _, dir := range []string{"a/client", "b/client"} {
+			uid := b.nextUID()
+			d := &Dep{Path: t.ModPath + "/" + dir, Dir: dir, Name: "client", UID: uid, Struct: "Thing", Ifaces: []string{"Iface"}, Embed: "Emb" + uid, EmbedMethods: []string{"Em" + uid},
+				Func: "Func", Gen: "Gen", Num: "Num", Constr: "Constr", StrIf: "Str", GenAlias: "List"}
+			t.Deps = append(t.Deps, d)
+		}
+		ca, cb := t.Deps[len(t.Deps)-2], t.Deps[len(t.Deps)-1]
+		t.Ifaces = append(t.Ifaces,
+			&Iface{Name: "StA", File: 0, Exportable: true, Tags: []string{"matrix"}, Methods: []Method{{Name: "Use", Params: []Param{{"c", pkgT(ca, "Thing")}}}}},
+			&Iface{Name: "StB", File: 1, Exportable: true, Tags: []string{"matrix"}, Methods: []Method{
+				{Name: "Use2", Params: []Param{{"c", pkgT(cb, "Thing")}}},
+				{Name: "Zap", Params: []Param{{"client", str}, {"id", basic("int")}}},
+				{Name: "Zip", Params: []Param{{"api", str}, {"client", basic("int")}}, Results: []Param{{"", er}}}}},
+			&Iface{Name: "StC", File: 0, Exportable: true, Tags: []string{"matrix"}, Methods: []Method{
+				{Name: "Early", Params: []Param{{"client", str}, {"c", pkgT(ca, "Thing")}}}}})
+		// a source alias that is another package's name: a.go imports .../audit/log bare, b.go imports log ".../zap"
+		for _, spec := range [][3]string{{"audit/log", "log", ""}, {"zap", "zap", "log"}} {
+			uid := b.nextUID()
+			t.Deps = append(t.Deps, &Dep{Path: t.ModPath + "/" + spec[0], Dir: spec[0], Name: spec[1], SrcAlias: spec[2], UID: uid, Struct: "Thing", Ifaces: []string{"Iface"}, Embed: "Emb" + uid, EmbedMethods: []string{"Em" + uid},
+				Func: "Func", Gen: "Gen", Num: "Num", Constr: "Constr", StrIf: "Str", GenAlias: "List"})
+		}
+		la, lb := t.Deps[len(t.Deps)-2], t.Deps[len(t.Deps)-1]
+		t.Ifaces = append(t.Ifaces,
+			&Iface{Name: "StLogA", File: 0, Exportable: true, Tags: []string{"matrix"}, Methods: []Method{{Name: "Audit", Params: []Param{{"l", pkgT(la, "Thing")}}}}},
+			&Iface{Name: "StLogB", File: 1, Exportable: true, Tags: []string{"matrix"}, Methods: []Method{{Name: "Trace", Params: []Param{{"l", pkgT(lb, "Thing")}}, Results: []Param{{"", er}}}}})
+		t.FixedRequests = [][]string{{"StA", "StB"}, {"StB", "StA"}, {"StC", "StB"}, {"StA", "StC", "StB"}, {"StLogA", "StLogB"}, {"StLogB", "StLogA"}}
 	case "numbered":
 		names := []string{"s", "s1", "s2", "s3", "_"}
 		var ms []Method
